@@ -879,6 +879,13 @@ func (x *Exec) assign(lhs ast.Expr, v Val, st *State) *State {
 			k := encodeKey(idx)
 			had := tSel(b.Has, k)
 			x.c.obligeAssume("nilmap", "", st.pc, tNot(b.Nil), n.Pos(), "assignment to entry in nil map: "+x.src(n))
+			if id, ok := ast.Unparen(n.X).(*ast.Ident); ok {
+				if pv, ok := x.info.Uses[id].(*types.Var); ok && x.depth == 0 && (x.isParam(pv) || (x.sig.Recv() != nil && pv == x.sig.Recv())) {
+					if x.contract == nil || !x.contract.Modifies[id.Name] {
+						x.c.oblige("frame:"+id.Name, "", st.pc, tFalse, n.Pos(), "store into the caller's map "+id.Name+" (maps are shared with the caller; not declared in modifies)")
+					}
+				}
+			}
 			nm := Mp{tSto(b.Has, k, tTrue), vStore(b.Val, k, v), tIte(had, b.Len, tAdd(b.Len, "1")), b.K, b.V, b.KS, tFalse}
 			return x.assign(n.X, nm, st)
 		}
